@@ -131,9 +131,31 @@ def r_buildfile_keys(prog, rep):
     return r
 
 
+def r_validity_bodies(prog, rep):
+    """what the per-class validity predicates may answer, decided by evaluating each body over its branch structure (cfg.possible_returns),
+    not by its spelling."""
+    r = rep.rule("R-VALIDITY-BODIES",
+                 "a target's and a stat's stored value is never accepted as still valid (a target rule has an empty signature and its value says "
+                 "nothing about its node list; a stat value is a snapshot) — they re-run on every build; a produced node's stored value is never "
+                 "accepted when it records a failed or missing input", floor=6)
+    for cls in ("TargetTask", "StatTask"):
+        f = prog.fn(cls + "::isResultValid")
+        got = cfg.possible_returns(f, {})
+        r.check(got == {False}, "%s::isResultValid|never-valid" % cls, "", "%s::isResultValid can answer %s: an edit of the description that changes only what the "
+                "target lists (or a file changed since the stat) is then not looked at" % (cls, sorted("a value-dependent answer" if x is None else str(x).lower() for x in got)), f)
+    for cls in ("ProducedNodeTask", "ProducedDirectoryNodeTask"):
+        f = prog.fn(cls + "::isResultValid")
+        v = f.params[-1]["n"]
+        for pred in ("isFailedInput", "isMissingInput"):
+            got = cfg.possible_returns(f, {"%s.%s()" % (v, pred): True})
+            r.check(got == {False}, "%s::isResultValid|%s-invalid" % (cls, pred), "", "%s::isResultValid can answer %s for a value with %s()" % (
+                cls, sorted("a value-dependent answer" if x is None else str(x).lower() for x in got), pred), f)
+
+
 def run(ctx):
     prog, rep = ctx.prog, ctx.report
     r_buildfile_keys(prog, rep)
+    r_validity_bodies(prog, rep)
     from rules import inputids
     inputids.run_rule(prog, rep)
     from rules import C11
@@ -309,4 +331,13 @@ VARIANTS = [
     dict(name="file-input-existence-only", file="lib/BuildSystem/BuildSystem.cpp",
          old="      return value.isExistingInput() && value.getOutputInfo() == info;\n    }\n  }\n};\n\n/// This is the task to \"build\" a file info node", new="      return value.isExistingInput();\n    }\n  }\n};\n\n/// This is the task to \"build\" a file info node",
          expect=("R-OUTPUT-COMPARE", "FileInputNodeTask")),
+    dict(name="target-valid-when-stored-value-is-a-target", file="lib/BuildSystem/BuildSystem.cpp", old="  static bool isResultValid(BuildEngine&, Target&, const BuildValue&) {\n    // Always treat target tasks as invalid.\n    return false;",
+         new="  static bool isResultValid(BuildEngine&, Target&, const BuildValue& value) {\n    return value.isTarget();", expect=("R-VALIDITY-BODIES", "TargetTask::isResultValid|never-valid")),
+    dict(name="stat-valid-when-stored", file="lib/BuildSystem/BuildSystem.cpp", old="  static bool isResultValid(BuildEngine&, const StatNode&, const BuildValue&) {\n    // Always read the stat information\n    return false;",
+         new="  static bool isResultValid(BuildEngine&, const StatNode&, const BuildValue& value) {\n    return !value.isInvalid();", expect=("R-VALIDITY-BODIES", "StatTask::isResultValid|never-valid")),
+    dict(name="produced-node-valid-after-missing-input", file="lib/BuildSystem/BuildSystem.cpp", old="    if (value.isMissingInput())\n      return false;\n\n    // The produced node result itself doesn't need any synchronization.\n    return true;",
+         new="    // The produced node result itself doesn't need any synchronization.\n    return true;", expect=("R-VALIDITY-BODIES", "ProducedNodeTask::isResultValid|isMissingInput-invalid")),
+    dict(name="benign-produced-node-validity-as-one-expression", file="lib/BuildSystem/BuildSystem.cpp",
+         old="    if (value.isFailedInput())\n      return false;\n\n    // If the result was previously a missing input, it may have been because\n    // we did not previously know how to produce this node. We do now, so\n    // attempt to build it now.\n    if (value.isMissingInput())\n      return false;\n\n    // The produced node result itself doesn't need any synchronization.\n    return true;",
+         new="    return !(value.isFailedInput() || value.isMissingInput());", expect=None),
 ]
